@@ -186,7 +186,10 @@ static Verdict run_c08(const Case &c)
     }
     return v;
   }
-  bytes got = wapi::hmac_get(hmode, key, file, pos, refill);
+  int how = (int)c.geti("how", 0);
+  if (how)
+    v.classes.push_back(how == 1 ? "stream_is_a_pipe" : "stream_is_a_pipe_after_a_header_was_read");
+  bytes got = wapi::hmac_get(hmode, key, file, pos, refill, how);
   if ((int)got.size() != hl)
     return bad("tag length " + std::to_string(got.size()));
   if (got != want)
@@ -194,7 +197,7 @@ static Verdict run_c08(const Case &c)
   // comparison: accepts the right tag (whatever follows it), rejects every one-bit neighbour
   bytes t64 = want;
   t64.resize(64, 0xC7);
-  if (!wapi::hmac_cmp(hmode, key, file, pos, t64, refill))
+  if (!wapi::hmac_cmp(hmode, key, file, pos, t64, refill, how))
     return bad("comparison rejects the correct tag");
   bool all_bits = c.geti("allbits") != 0;
   uint64_t which = (uint64_t)c.geti("bit");
@@ -204,7 +207,7 @@ static Verdict run_c08(const Case &c)
       continue;
     bytes t = t64;
     t[bit / 8] ^= (uint8_t)(1 << (bit % 8));
-    if (wapi::hmac_cmp(hmode, key, file, pos, t, refill))
+    if (wapi::hmac_cmp(hmode, key, file, pos, t, refill, how))
       return bad("comparison accepts a tag that differs in bit " + std::to_string(bit));
   }
   if (all_bits)
@@ -257,6 +260,8 @@ static Case gen_c08()
   c.set("pseed", std::to_string(g::u64()));
   c.seti("pstyle", 0);
   c.seti("bit", g::range(0, 256));
+  if (c.get("kind") == "msg" && g::coin(14))
+    c.seti("how", g::oneof<long>({1, 3, 3})); // the stream is a pipe; with `pos` bytes of it (a header) already read through stdio
   c.seti("allbits", g::coin(10) && !longmsg ? 1 : 0);
   if (c.get("kind") == "write")
   {
